@@ -6,17 +6,20 @@ Open Scope N_scope.
 
 (** Full strength for the lock model with the engine's (recursive) read latches: for every number of threads, every
     per-thread sequence of acquisitions and releases of the pager lock and of page latches, and EVERY schedule, if
-    each sequence follows the discipline for one rank of the objects (locks are requested in increasing rank, except
-    that a shared latch already held may be requested again; releases are of held locks; nothing is held at the end)
-    then no reachable state is deadlocked.  The hypothesis is decided on every run for the sequences the lock tap
-    records (verified checker [disciplined], rank certificate computed outside), so the conclusion covers all
-    schedules of the observed sequences, not only the one that happened. *)
+    each sequence follows the discipline for one certificate - a class for every lock and, for some classes, a gate:
+    a lock is requested only when every lock held is of a smaller class, or of the same class while the class's gate
+    is held exclusively (a writer that holds a tree's root latch exclusively may take the latches below it in any
+    order; nobody else holds two latches of that tree at once); a shared latch already held may be requested again;
+    releases are of held locks; nothing is held at the end - then no reachable state is deadlocked.  The hypothesis is
+    decided on every run for the sequences the lock tap records (verified checker [disciplined], certificate computed
+    outside and only checked), so the conclusion covers all schedules of the observed sequences, not only the one
+    that happened. *)
 Definition C14_statement : Prop :=
-  forall (rank : N -> N) (progs : list (list act)) (sched : list nat),
-    forallb (fun p => disciplined rank [] p) progs = true ->
+  forall (cls : N -> N) (gate : N -> option N) (progs : list (list act)) (sched : list nat),
+    forallb (fun p => disciplined cls gate [] p) progs = true ->
     stuck false (run_schedule false (map start progs) sched) = false.
 Theorem C14_no_deadlock : C14_statement.
-Proof. intros rank progs sched. exact (no_deadlock rank progs sched). Qed.
+Proof. intros cls gate progs sched. exact (no_deadlock cls gate progs sched). Qed.
 Check C14_no_deadlock : C14_statement.
 Print Assumptions C14_no_deadlock.
 
@@ -34,21 +37,34 @@ Print Assumptions C14_completion.
     the read latch it holds deadlocks with a waiting writer.  This was the engine before fix 82c0144 (one SELECT
     and one INSERT on the same table from two threads hung). *)
 Definition C14_fair_statement : Prop :=
-  forall (rank : N -> N) (progs : list (list act)) (sched : list nat),
-    forallb (fun p => disciplined rank [] p) progs = true ->
+  forall (cls : N -> N) (gate : N -> option N) (progs : list (list act)) (sched : list nat),
+    forallb (fun p => disciplined cls gate [] p) progs = true ->
     stuck true (run_schedule true (map start progs) sched) = false.
 Theorem C14_fair_read_refuted : ~ C14_fair_statement.
 Proof.
-  intro H. specialize (H (fun o => o) [reentrant_reader; writer] [0; 1; 1]%nat (reentrant_disciplined _)).
+  intro H. specialize (H (fun o => o) (fun _ => None) [reentrant_reader; writer] [0; 1; 1]%nat (reentrant_disciplined _ _)).
   rewrite fair_read_deadlocks in H. discriminate H.
 Qed.
 Check C14_fair_read_refuted : ~ C14_fair_statement.
 Print Assumptions C14_fair_read_refuted.
 
-(** Non-vacuity: the sequences of a reader that re-requests its leaf latch and of a writer (pager lock = object 0
-    requested while a latch is held) are disciplined for the rank "pages by id, pager lock last". *)
+(** The gate clause cannot be dropped: a reader that couples latches top-down inside a tree and a writer that goes
+    bottom-up under the root deadlock, and no certificate accepts that pair. *)
+Definition C14_coupling_statement : Prop :=
+  stuck false (run_schedule false (map start [coupling_reader; bottom_up_writer]) [0; 1; 1]%nat) = true
+  /\ forall cls gate, forallb (fun p => disciplined cls gate [] p) [coupling_reader; bottom_up_writer] = false.
+Theorem C14_coupling_rejected : C14_coupling_statement.
+Proof. split; [exact coupling_deadlocks|exact coupling_not_disciplined]. Qed.
+Check C14_coupling_rejected : C14_coupling_statement.
+Print Assumptions C14_coupling_rejected.
+
+(** Non-vacuity: a reader that re-requests its leaf latch, and a writer that holds the root (object 3) exclusively,
+    takes the latches below it in both directions and requests the pager lock (object 0) while holding them, are
+    disciplined for: class 1 = {3}, class 2 = {5, 6} gated by 3, class 9 = pager lock. *)
 Example C14_example :
-  let rank := fun o => if o =? 0 then 1000 else o in
-  forallb (fun p => disciplined rank [] p)
-          [[ar 3; rl 3; ar 5; aw 0; rl 0; ar 5; rl 5; rl 5]; [aw 0; rl 0; aw 5; aw 0; rl 0; rl 5]] = true.
+  let cls := fun o => if o =? 0 then 9 else if o =? 3 then 1 else 2 in
+  let gate := fun c => if c =? 2 then Some 3 else None in
+  forallb (fun p => disciplined cls gate [] p)
+          [[ar 3; rl 3; ar 5; aw 0; rl 0; ar 5; rl 5; rl 5];
+           [aw 3; aw 6; aw 5; aw 0; rl 0; rl 5; rl 6; aw 5; aw 6; rl 6; rl 5; rl 3]] = true.
 Proof. vm_compute. reflexivity. Qed.
